@@ -57,6 +57,10 @@ def withAttrs (p : PieObj) (a : Attrs) : PieObj :=
   { p with spec := p.spec.mapCrypto (fun _ => ⟨a.masks, a.state⟩), names := a.names, nameIndex := a.nameIndex,
            policy := a.policy, sensitive := a.sensitive, initialDate := a.initialDate, owner := a.owner }
 
+/-- the integers of the attribute part fit a SQLite INTEGER (dates, name indices) -/
+def AttrsFit (a : Attrs) : Prop :=
+  chk64 a.nameIndex = .ok () ∧ chk64 a.initialDate = .ok () ∧ a.names.forM (fun n => chk64 n.index) = .ok ()
+
 /-- the secret part: everything `_build_core_object` reads -/
 def strip (p : PieObj) : PieObj :=
   { spec := p.spec.mapCrypto (fun _ => freshCrypto), objectType := p.objectType, value := p.value, names := [],
@@ -87,10 +91,11 @@ def normKb (kb : CoreKeyBlock) : CoreKeyBlock :=
             len := match kb.len with | .unset => .val 0 | l => l,
             wrapping := fromColumns (toColumns kb.wrapping) }
 
-/-- the key block every conversion builds for Secret Data: the bytes, key format Opaque, nothing else -/
+/-- the key block every conversion builds for Secret Data: the bytes, key format Opaque, nothing else (a Secret Data
+with key wrapping data is refused by `coreToPie`, so nothing is lost there) -/
 def secretKb (kb : CoreKeyBlock) : CoreKeyBlock :=
   { format := .val fmtOpaque, compression := none, keyValue := kb.keyValue.map (fun kv => { kv with attrs := 0 }),
-    alg := .absent, len := .absent, wrapping := none }
+    alg := .absent, len := .absent, wrapping := kb.wrapping }
 
 def factoryNorm : CoreObj → CoreObj
   | .key kk kb => .key kk (kb.map normKb)
@@ -117,7 +122,7 @@ def kbStorable (kb : CoreKeyBlock) : Prop :=
 /-- the key block of a Secret Data the storage path returns exactly -/
 def kbSecretStorable (kb : CoreKeyBlock) : Prop :=
   kb.format = .val fmtOpaque ∧ kb.compression = none ∧ (kb.keyValue.map (·.attrs)).getD 0 = 0 ∧
-  kb.alg = .absent ∧ kb.len = .absent ∧ kb.wrapping = none
+  kb.alg = .absent ∧ kb.len = .absent
 
 /-- the domain of exact Register/Get fidelity -/
 def Storable : CoreObj → Prop
